@@ -89,3 +89,205 @@ Proof.
   rewrite Hb, Hn. reflexivity.
 Qed.
 Print Assumptions Filter_hash_zero.
+
+(* ====================================================================== *)
+(* shared facts for matches / add                                          *)
+(* ====================================================================== *)
+(* uint32(len) << 3 does not wrap under len_ok_msg *)
+Lemma nbits_val m : len_ok_msg m -> nbits m = 8 * N.of_nat (length (m_bytes m)).
+Proof.
+  unfold len_ok_msg, nbits, hlit. intros H. eval_term (lit lits_Filter_hash 1).
+  rewrite !w32_is_mod, N.shiftl_mul_pow2.
+  change (2 ^ 29) with 536870912 in H. change (2 ^ 32) with 4294967296. change (2 ^ 3) with 8.
+  rewrite (N.mod_small (N.of_nat _)) by lia. rewrite N.mod_small by lia. lia.
+Qed.
+
+(* bit_index depends on the message only through the array length and the tweak *)
+Lemma bit_index_len m1 m2 i data :
+  length (m_bytes m1) = length (m_bytes m2) -> m_tweak m1 = m_tweak m2 ->
+  bit_index m1 i data = bit_index m2 i data.
+Proof. unfold bit_index, nbits. intros -> ->. reflexivity. Qed.
+
+Lemma bit_index_lt m i data :
+  len_ok_msg m -> length (m_bytes m) <> O ->
+  N.shiftr (bit_index m i data) 3 < N.of_nat (length (m_bytes m)).
+Proof.
+  intros Hok Hne. rewrite N.shiftr_div_pow2. change (2 ^ 3) with 8.
+  assert (Hlt : bit_index m i data < nbits m).
+  { unfold bit_index. apply N.mod_lt. rewrite nbits_val by exact Hok. lia. }
+  rewrite nbits_val in Hlt by exact Hok.
+  apply N.div_lt_upper_bound; lia.
+Qed.
+
+Lemma nth_res_nth (l : list N) k : (k < length l)%nat -> nth_res l k = Ok (nth k l 0).
+Proof.
+  intros H. unfold nth_res. destruct (nth_error l k) as [x|] eqn:E.
+  - now rewrite (nth_error_nth _ _ _ E).
+  - apply nth_error_None in E. lia.
+Qed.
+
+Lemma nseq_seq a n : Go.nseq (N.of_nat a) n = map N.of_nat (seq a n).
+Proof.
+  revert a; induction n as [|n IH]; intros a; cbn [Go.nseq seq map]; [reflexivity|].
+  f_equal. rewrite <- IH. f_equal. lia.
+Qed.
+
+Lemma forallb_map' {A B} (p : B -> bool) (h : A -> B) l :
+  forallb p (map h l) = forallb (fun x => p (h x)) l.
+Proof. induction l as [|x l IH]; cbn [map forallb]; [reflexivity | now rewrite IH]. Qed.
+
+(* a loop whose body only tests: [return false] on the first failure = forallb *)
+Lemma foldC_forallb {A} (p : A -> bool) (f : unit -> A -> res (Go.ctl unit bool)) l :
+  (forall x, In x l -> f tt x = Ok (if p x then Go.Next tt else Go.Ret false)) ->
+  Go.foldC f l tt = Ok (if forallb p l then Go.Next tt else Go.Ret false).
+Proof.
+  induction l as [|x l IH]; intros H; cbn [Go.foldC forallb]; [reflexivity|].
+  rewrite H by (left; reflexivity). destruct (p x); cbn [andb]; [|reflexivity].
+  apply IH. intros y Hy. apply H. now right.
+Qed.
+
+(* the loop counter of the code against the model's [hash_nums] (HashFuncs is a uint32) *)
+Lemma hash_nums_tie n : n < 2 ^ 32 -> Go.nseq 0 (N.to_nat n) = hash_nums n.
+Proof.
+  intros H. unfold hash_nums. rewrite w32_is_mod, N.mod_small by exact H.
+  exact (nseq_seq 0 (N.to_nat n)).
+Qed.
+
+(* ====================================================================== *)
+(* 2. Filter.matches                                                       *)
+(* ====================================================================== *)
+Theorem Filter_matches_nil_tie bytes nh tw data :
+  Kernels2.Filter_matches true bytes nh tw data = Ok (Bloom.matches None data).
+Proof. reflexivity. Qed.
+Print Assumptions Filter_matches_nil_tie.
+
+(* one iteration of the loop of matches *)
+Lemma matches_body m i data :
+  Bytes data -> N.of_nat (length data) < 2 ^ 32 -> len_ok_msg m -> length (m_bytes m) <> O ->
+  (do idx <- Kernels2.Filter_hash (m_tweak m) (m_bytes m) i data ;;
+   do b <- Go.idx (m_bytes m) (Z.of_N (N.shiftr idx 3)) ;;
+   if N.land b ((N.shiftl 1 (N.land idx 7)) mod 2 ^ 8) =? 0
+   then Ok (Go.Ret (S := unit) false) else Ok (Go.Next tt))
+  = Ok (if test_bit (m_bytes m) (bit_index m i data) then Go.Next tt else Go.Ret false).
+Proof.
+  intros Hd Hl Hok Hne.
+  rewrite Filter_hash_tie; [| exact Hd | exact Hl | rewrite nbits_val by exact Hok; lia].
+  cbn [rbind]. pose proof (bit_index_lt m i data Hok Hne) as Hlt.
+  rewrite idx_N, nth_res_nth by lia. cbn [rbind].
+  unfold test_bit, mlit_m.
+  eval_term (lit lits_Filter_matches 2). eval_term (lit lits_Filter_matches 3).
+  eval_term (lit lits_Filter_matches 4). eval_term (lit lits_Filter_matches 5).
+  rewrite w8_is_mod.
+  destruct (N.land _ _ =? 0); reflexivity.
+Qed.
+
+(* Hypotheses: those of Filter_hash_tie about data; [m_nhash m < 2^32] because the model wraps the
+   loop bound (it is a uint32 in Go) and the code's parameter is an unconstrained N;
+   [len_ok_msg m] (len < 2^29) so that uint32(len)<<3 = 8*len: then the divisor is non-zero for a
+   non-empty array and idx>>3 < len, i.e. the code's checked read does not panic and agrees with
+   the model's unchecked [nth]. *)
+Theorem Filter_matches_tie m data :
+  Bytes data -> N.of_nat (length data) < 2 ^ 32 -> m_nhash m < 2 ^ 32 -> len_ok_msg m ->
+  Kernels2.Filter_matches false (m_bytes m) (m_nhash m) (m_tweak m) data
+  = Ok (Bloom.matches (Some m) data).
+Proof.
+  intros Hd Hl Hn Hok. unfold Kernels2.Filter_matches, Bloom.matches, is_empty, mlit_m.
+  eval_term (lit lits_Filter_matches 0).
+  destruct (Z.eqb_spec (Z.of_nat (length (m_bytes m))) 0) as [E|E].
+  - destruct (N.eqb_spec (N.of_nat (length (m_bytes m))) 0); [reflexivity | lia].
+  - destruct (N.eqb_spec (N.of_nat (length (m_bytes m))) 0) as [E'|_]; [lia|].
+    rewrite (foldC_forallb (fun i => test_bit (m_bytes m) (bit_index m i data))).
+    + cbn [rbind]. rewrite hash_nums_tie by exact Hn. unfold indices. rewrite forallb_map'.
+      destruct (forallb _ _); reflexivity.
+    + intros i _. apply matches_body; [exact Hd | exact Hl | exact Hok | lia].
+Qed.
+Print Assumptions Filter_matches_tie.
+
+(* ====================================================================== *)
+(* 3. Filter.add                                                           *)
+(* ====================================================================== *)
+Lemma upd_length l k f : length (Bloom.upd l k f) = length l.
+Proof. revert k; induction l as [|x l IH]; intros [|k]; cbn [Bloom.upd length]; auto. Qed.
+
+Lemma set_bit_length l idx : length (set_bit l idx) = length l.
+Proof. apply upd_length. Qed.
+
+(* the code's read-modify-write against the model's in-place update *)
+Lemma set_at_upd (l : list N) k f :
+  (k < length l)%nat -> Go.set_at l k (f (nth k l 0)) = Bloom.upd l k f.
+Proof.
+  revert k; induction l as [|x l IH]; intros [|k] H; cbn [length] in H;
+    cbn [Go.set_at Bloom.upd nth]; try lia; [reflexivity|].
+  f_equal. apply IH. lia.
+Qed.
+
+(* the array of a filter (the only field add writes) *)
+Definition filter_bytes (f : filter) : list N :=
+  match f with Some m => m_bytes m | None => [] end.
+
+(* one iteration of the loop of add, on any array s of the original length *)
+Lemma add_body m s i data :
+  Bytes data -> N.of_nat (length data) < 2 ^ 32 -> len_ok_msg m -> length (m_bytes m) <> O ->
+  length s = length (m_bytes m) ->
+  (do idx <- Kernels2.Filter_hash (m_tweak m) s i data ;;
+   do b <- Go.idx s (Z.of_N (N.shiftr idx 3)) ;;
+   do s' <- Go.upd s (Z.of_N (N.shiftr idx 3)) (N.lor b ((N.shiftl 1 (N.land 7 idx)) mod 2 ^ 8)) ;;
+   Ok s')
+  = Ok (set_bit s (bit_index m i data)).
+Proof.
+  intros Hd Hl Hok Hne Hs.
+  set (m' := MkMsg s (m_nhash m) (m_tweak m) (Bloom.m_flags m)).
+  assert (Hok' : len_ok_msg m') by (unfold len_ok_msg in *; cbn [m' m_bytes]; now rewrite Hs).
+  assert (Hne' : length (m_bytes m') <> O) by (cbn [m' m_bytes]; now rewrite Hs).
+  change s with (m_bytes m') at 1. change (m_tweak m) with (m_tweak m') at 1.
+  rewrite Filter_hash_tie; [| exact Hd | exact Hl | rewrite nbits_val by exact Hok'; lia].
+  cbn [rbind]. pose proof (bit_index_lt m' i data Hok' Hne') as Hlt. cbn [m' m_bytes] in Hlt.
+  rewrite (bit_index_len m' m) in * by (cbn [m' m_bytes m_tweak]; auto).
+  rewrite idx_N, nth_res_nth by lia. cbn [rbind].
+  rewrite <- N_nat_Z, upd_nat by lia. cbn [rbind].
+  unfold set_bit, mlit_a.
+  eval_term (lit lits_Filter_add 2). eval_term (lit lits_Filter_add 3). eval_term (lit lits_Filter_add 4).
+  rewrite w8_is_mod.
+  rewrite (set_at_upd s _ (fun b => N.lor b ((N.shiftl 1 (N.land 7 (bit_index m i data))) mod 2 ^ 8))) by lia.
+  reflexivity.
+Qed.
+
+Theorem Filter_add_nil_tie bytes nh tw data :
+  Kernels2.Filter_add true bytes nh tw data = Ok bytes /\ Bloom.add None data = None.
+Proof. split; reflexivity. Qed.
+Print Assumptions Filter_add_nil_tie.
+
+(* Same hypotheses as Filter_matches_tie, for the same reasons; the array length is invariant under
+   the loop, so every call of hash sees the same divisor.  The second conjunct says that the model
+   changes nothing but the array. *)
+Theorem Filter_add_tie m data :
+  Bytes data -> N.of_nat (length data) < 2 ^ 32 -> m_nhash m < 2 ^ 32 -> len_ok_msg m ->
+  Kernels2.Filter_add false (m_bytes m) (m_nhash m) (m_tweak m) data
+  = Ok (filter_bytes (Bloom.add (Some m) data)) /\
+  Bloom.add (Some m) data
+  = Some (MkMsg (filter_bytes (Bloom.add (Some m) data)) (m_nhash m) (m_tweak m) (Bloom.m_flags m)).
+Proof.
+  intros Hd Hl Hn Hok. unfold Kernels2.Filter_add, Bloom.add, is_empty_a, mlit_a.
+  eval_term (lit lits_Filter_add 0). cbn [orb].
+  destruct (Z.eqb_spec (Z.of_nat (length (m_bytes m))) 0) as [E|E].
+  - destruct (N.eqb_spec (N.of_nat (length (m_bytes m))) 0); [|lia].
+    cbn [filter_bytes]. split; [reflexivity | now destruct m].
+  - destruct (N.eqb_spec (N.of_nat (length (m_bytes m))) 0) as [E'|_]; [lia|].
+    cbn [filter_bytes m_bytes]. split; [|reflexivity].
+    destruct (foldM_pure (fun s => length s = length (m_bytes m)) (fun _ : N => True)
+                (fun s i =>
+                   do idx <- Kernels2.Filter_hash (m_tweak m) s i data ;;
+                   do b <- Go.idx s (Z.of_N (N.shiftr idx 3)) ;;
+                   do s' <- Go.upd s (Z.of_N (N.shiftr idx 3))
+                              (N.lor b ((N.shiftl 1 (N.land 7 idx)) mod 2 ^ 8)) ;;
+                   Ok s')
+                (fun s i => set_bit s (bit_index m i data))
+                (Go.nseq 0 (N.to_nat (m_nhash m))) (m_bytes m)) as [Hfold _].
+    + intros s i Hs _. apply add_body; [exact Hd | exact Hl | exact Hok | lia | exact Hs].
+    + intros s i Hs _. now rewrite set_bit_length.
+    + reflexivity.
+    + apply Forall_forall. intros; exact I.
+    + rewrite Hfold. cbn [rbind]. rewrite hash_nums_tie by exact Hn.
+      unfold indices. now rewrite fold_left_map.
+Qed.
+Print Assumptions Filter_add_tie.
